@@ -1,1 +1,6 @@
-
+import Proofs.ValOrder
+import Proofs.FieldIndex
+import Proofs.Lock
+import Proofs.ObjIndex
+import Proofs.Inv
+import Proofs.Crud
